@@ -113,6 +113,12 @@ fn c17_o1b_no_conflict_cases() {
     std::mem::forget(core);
 }
 
+/// `ClosestNodes::dht_size_estimate` (u128 -> f64 conversions and f64 arithmetic over up to 20
+/// nodes) cut to a constant where the obligation is about the integer bookkeeping around it.
+pub(crate) fn dse_const(_c: &crate::common::ClosestNodes) -> f64 {
+    1.0
+}
+
 fn server_cut(_s: &mut Server, _rt: &RoutingTable, _srt: &RoutingTable, _from: SocketAddrV4, _r: RequestSpecific) -> Option<MessageType> {
     cut();
     None
@@ -218,11 +224,12 @@ fn c18_o2_learning_from_requests() {
 //@ standins: tracing lru vcoll
 //@ desc: adaptive chain, step 1: when a finished lookup's best-voted address differs from the known public address (or none is known) cleanup_done_queries returns it for a confirming self-ping, records it and sets firewalled; when it equals the known address nothing is returned and the flags are unchanged; without votes nothing happens
 //@ bounds: one finished lookup with 0 or 1 voted address (symbolic), public_address None / Some(symbolic), firewalled symbolic; unwind 26
-//@ stubs: Instant::now; getrandom::fill
+//@ stubs: ClosestNodes::dht_size_estimate -> constant (f64 estimator: outside); Instant::now; getrandom::fill
 //@ functions: Core::cleanup_done_queries, Core::update_address_votes_from_iterative_query, IterativeQuery::best_address, Core::cache_iterative_query (offline early return)
 #[kani::proof]
 #[kani::stub(std::time::Instant::now, clock::now)]
 #[kani::stub(getrandom::fill, rnd::fill)]
+#[kani::stub(crate::common::closest_nodes::ClosestNodes::dht_size_estimate, dse_const)]
 #[kani::unwind(26)]
 fn c18_o5a_address_vote() {
     clock::set(0);
@@ -522,11 +529,12 @@ fn expected_counts(kinds: &[Option<u8>; 2]) -> (usize, usize, usize, usize) {
 //@ desc: statistics pairing: after caching one finished lookup and then a second one (same target = replacement, or a different target), the per-table sample counters (dht size estimates count, responders samples count, subnets sum) equal the aggregate over the lookups currently cached -- find_node lookups count only towards the basic estimate, get_signed_peers lookups only towards the signed-peers table -- and no counter underflows
 //@ bounds: two cache steps; lookup kinds symbolic among find_node / get_peers / get_signed_peers / get (4 x 4); second target same or different; each lookup has one concrete candidate and zero or one responder (so the f64 estimates are constants); cache capacity stand-in 4; unwind 26
 //@ outside: f64 sums are not compared bit for bit (float addition is not associative); rolling the 1000-entry cache (replacement of an existing key exercises the same decrement path)
-//@ stubs: Instant::now; getrandom::fill
+//@ stubs: ClosestNodes::dht_size_estimate -> constant (the f64 estimate values are outside; the counters and subnet sums are real); Instant::now; getrandom::fill
 //@ functions: Core::{cache_iterative_query, decrement_cached_iterative_query_stats}, RoutingTable::{increment_responders_stats, increment_dht_size_estimate, decrement_*}, ClosestNodes::{dht_size_estimate, subnets_count}
 #[kani::proof]
 #[kani::stub(std::time::Instant::now, clock::now)]
 #[kani::stub(getrandom::fill, rnd::fill)]
+#[kani::stub(crate::common::closest_nodes::ClosestNodes::dht_size_estimate, dse_const)]
 #[kani::unwind(26)]
 fn c20_o1_stats_pairing() {
     clock::set(0);
